@@ -33,6 +33,9 @@ type fn struct {
 	dynUnder  bool // ... while a lock is held
 	ioUnder   bool // file I/O while a lock is held
 	callback  bool // calls a StoreCallbacks field
+	acq       map[string]bool            // locks this function acquires itself
+	heldCalls map[string]map[string]bool // lock name -> callees invoked while it is held
+	edges     map[[2]string]bool         // direct nesting: lock A held while lock B is acquired
 	user      bool // calls a value of a user-supplied function type (ItemVisitor, ItemVisitorEx, KeyCompare, BlockMangler)
 	userUnder bool // ... while a lock is held
 	addrTaken bool
@@ -361,7 +364,7 @@ func main() {
 		if f, ok := fns[n]; ok {
 			return f
 		}
-		f := &fn{name: n, calls: map[string]bool{}, under: map[string]bool{}, dynSigs: map[string]bool{}, dynUnderS: map[string]bool{}}
+		f := &fn{name: n, calls: map[string]bool{}, under: map[string]bool{}, dynSigs: map[string]bool{}, dynUnderS: map[string]bool{}, acq: map[string]bool{}, heldCalls: map[string]map[string]bool{}, edges: map[[2]string]bool{}}
 		fns[n] = f
 		return f
 	}
@@ -380,6 +383,19 @@ func main() {
 				callPos := map[*ast.Ident]bool{}
 				depth := 0
 				deferred := false
+				var held []string // names of the locks held at this point (linear scan)
+				lockName := func(c string) string {
+					// "t.rootLock.Lock" -> "rootLock"; "s.m.RLock" -> "Store.m"; "freeNodeLock.Lock" -> "freeNodeLock"
+					parts := strings.Split(c, ".")
+					if len(parts) < 2 {
+						return c
+					}
+					n := parts[len(parts)-2]
+					if n == "m" {
+						return "Store.m"
+					}
+					return n
+				}
 				var visit func(n ast.Node) bool
 				visit = func(n ast.Node) bool {
 					switch x := n.(type) {
@@ -396,9 +412,24 @@ func main() {
 						case "Lock", "RLock":
 							cur.locks = true
 							depth++
+							ln := lockName(c)
+							cur.acq[ln] = true
+							for _, h := range held {
+								if h != ln {
+									cur.edges[[2]string{h, ln}] = true
+								}
+							}
+							held = append(held, ln)
 						case "Unlock", "RUnlock":
 							if depth > 0 {
 								depth--
+							}
+							ln := lockName(c)
+							for q := len(held) - 1; q >= 0; q-- {
+								if held[q] == ln {
+									held = append(held[:q:q], held[q+1:]...)
+									break
+								}
 							}
 						case "WriteAt", "Truncate":
 							cur.writes = true
@@ -411,6 +442,7 @@ func main() {
 								cur.ioUnder = true
 							}
 						}
+						heldNames := append([]string{}, heldList(&cur.acq, held, deferred)...)
 						held := depth > 0 || (deferred && cur.locks)
 						// resolve the callee
 						var id *ast.Ident
@@ -429,6 +461,12 @@ func main() {
 									cur.calls[prefix+funcName(fo)] = true
 									if held {
 										cur.under[prefix+funcName(fo)] = true
+									}
+									for _, h := range heldNames {
+										if cur.heldCalls[h] == nil {
+											cur.heldCalls[h] = map[string]bool{}
+										}
+										cur.heldCalls[h][prefix+funcName(fo)] = true
 									}
 									resolved = true
 								case gk:
@@ -512,6 +550,7 @@ func main() {
 						}
 						cur = lit
 						depth, deferred = 0, false
+						held = nil
 						ast.Inspect(fl.Body, visit)
 						cur = outer
 					}
@@ -645,7 +684,63 @@ func main() {
 	}
 	w("].\n")
 	_ = all
+	// lock order: A -> B when B is acquired (directly, or somewhere below a callee) while A is held
+	acqStar := map[string]map[string]bool{}
+	for _, n := range names {
+		set := map[string]bool{}
+		for _, m := range reach([]string{n}, allCalls) {
+			for l := range fns[m].acq {
+				set[l] = true
+			}
+		}
+		acqStar[n] = set
+	}
+	order := map[[2]string]bool{}
+	for _, n := range names {
+		f := fns[n]
+		for e := range f.edges {
+			order[e] = true
+		}
+		for a, callees := range f.heldCalls {
+			for g := range callees {
+				for b := range acqStar[g] {
+					if a != b {
+						order[[2]string{a, b}] = true
+					}
+				}
+			}
+		}
+	}
+	var oe []string
+	for e := range order {
+		oe = append(oe, fmt.Sprintf("(%s, %s)", strconv.Quote(e[0]), strconv.Quote(e[1])))
+	}
+	sort.Strings(oe)
+	fmt.Fprintf(&sb, "\n(* lock order: (A, B) = lock B is acquired, directly or below a callee, while lock A is held *)\nDefinition g_lock_order : list (string * string) := [%s].\n", strings.Join(oe, "; "))
 	fmt.Print(sb.String())
+}
+
+// heldList: the locks held now; a deferred unlock keeps every lock the function has acquired so far.
+func heldList(acq *map[string]bool, held []string, deferred bool) []string {
+	if !deferred {
+		return held
+	}
+	seen := map[string]bool{}
+	var r []string
+	for _, h := range held {
+		if !seen[h] {
+			seen[h] = true
+			r = append(r, h)
+		}
+	}
+	for a := range *acq {
+		if !seen[a] {
+			seen[a] = true
+			r = append(r, a)
+		}
+	}
+	sort.Strings(r)
+	return r
 }
 
 func dirExists(p string) bool {
